@@ -1322,6 +1322,17 @@ val copy_val : nat -> payload -> payload m
 
 val copy_ctx : nat -> n -> n m
 
+val all2M : ('a1 -> 'a2 -> bool m) -> 'a1 list -> 'a2 list -> bool m
+
+val rec_pair_layout : (n -> n -> bool m) -> n -> n -> bool m
+
+val arr_layout : (n -> n -> bool m) -> arr -> arr -> bool m
+
+val same_layout : nat -> n -> n -> bool m
+
+val composite_assign :
+  (n -> n -> unit m) -> nat -> str -> n -> str -> n -> unit m
+
 val set_copy : nat -> n -> payload -> unit m
 
 val copy_var_data : nat -> n -> n -> unit m
